@@ -124,7 +124,10 @@ namespace MEDDLY {
         {
             MEDDLY_DCASSERT(OMEGA_INFINITY != b);
             if (fa->isIdentityReduced()) return false;
-            return (OMEGA_INFINITY == a) || (OMEGA_NORMAL == b);
+            if (OMEGA_INFINITY == a) return true;
+            // A constant b in an identity-reduced forest is not a
+            // constant function: it is infinite off the diagonal.
+            return (OMEGA_NORMAL == b) && !fb->isIdentityReduced();
         }
         inline static bool simplifiesToSecondArg(int L,
                 const forest* fa, node_handle a,
